@@ -6,7 +6,7 @@ import itertools
 import os
 import random
 import shutil
-from pathlib import Path
+from pathlib import Path, PurePosixPath
 
 PROPERTY = "C18"
 LEVEL = "exploration"
@@ -115,9 +115,14 @@ def check_pair(a, b, acc, gen):
                 raise Bad(f"node {x.path} has status {x.status()}, expected {want}")
             if d.get(x.path) is not x:
                 raise Bad(f"get({x.path}) does not return the listed node")
+            # (a str is accepted for the path as well, and any pure path flavour)
+            if d.get(str(x.path)) is not x or d.get(PurePosixPath(x.path)) is not x:
+                raise Bad(f"get({str(x.path)!r}) with a str / PurePosixPath argument does not return the listed node")
         for p in (set(fa) | set(fb)) - exp:
             if d.get(p) is not None or d.status(d.get(p)) != DiffNode.Status.unchanged:
                 raise Bad(f"get({p}) returns a node for an unchanged path")
+            if d.get(str(p)) is not None:
+                raise Bad(f"get({str(p)!r}) returns a node for an unchanged path")
         if d.get(Path("zz/none")) is not None:
             raise Bad("get of a non-existing path returns a node")
         if replay_nodes(a, nodes, DiffNode.Status) != b:
